@@ -114,7 +114,10 @@ def run_job(job):
     if rc == -999: res['timeout'] = True
     try:
         header, ops, trailer, stray = logparse.parse(logp)
-        if header is None: raise RuntimeError('log has no header')
+        if header is None and not skey: raise RuntimeError('log has no header')
+        if sj['cfg'].get('builtin_rng'):
+            # built-in generator: outcomes of random regions are not predictable by the interpreter; sanitizers and in-process checks only
+            ops = [o for o in ops if False]
         knobs = {k: v for k, v in PROFILES[profile].items() if k in ('zeroUtil', 'palette', 'pConsume')}
         knobs['plans'] = 1 if PROFILES[profile].get('planDump') else 0
         knobs['mirror'] = 1 if PROFILES[profile].get('verboseMethods') else 0
@@ -187,6 +190,15 @@ def shape_engine(prop, tier, seed, keep=False):
             for si in range(T['seeds']):
                 rseed = (seed * 7919 + si * 104729 + pi * 1299709 + (zlib.crc32(sj['name'].encode()) & 0xffff)) % 2000000011 + 1
                 jobs.append((sj, fl, binp, profile, rseed, T['steps'], prop, keep))
+    if prop == 'C11':
+        # copies of machines using the built-in generator, original destroyed first (sanitizer only)
+        brng = []
+        for sj in shapeset:
+            if any(n['strategy'] == 'Random' for n in sj['nodes']):
+                e = dict(sj); e['cfg'] = dict(sj['cfg'], builtin_rng=1); e['name'] = sj['name'] + '_brng'; brng.append(e)
+        for sj, fl, ex_, binp, out in vlib.pmap(build_job, [(sj, 'clang-asan', '') for sj in brng[:3 if tier == 'quick' else 12]]):
+            if binp is None: V.harness_errors.append('build failed: %s: %s' % (sj['name'], out[:300])); continue
+            jobs.append((sj, fl, binp, 'copies', seed * 31 + 7, T['steps'], prop, keep))
     results = []
     with cf.ProcessPoolExecutor(max_workers=vlib.JOBS) as ex:
         for r in ex.map(run_job, jobs, chunksize=1): results.append(r)
